@@ -1,4 +1,18 @@
-(* SubstProofs.v — C12: variable and macro bindings behave like substitution. *)
+(* SubstProofs.v — C12: variable and macro bindings behave like substitution.
+
+   Contents
+     0  strong induction on expr; le_out (equal, or the left side ran out of macro fuel)
+     1  eval_call / eval_ECall: one unfolding of eval at a call, recursive calls named
+     2  congruence of one call step w.r.t. a relation on contexts (plain_mono, set_mono, ...)
+     3  atoms; fuel_mono (more macro fuel never changes a value); eval_ext (eval sees the
+        context only through lookups)
+     S1 C12_set_unfold, C12_define_unfold, C12_pipe2, ...
+     S4 transparency of bindings and selections for input / parents / extractors
+     S2 C12_var_subst, C12_set_is_subst            (full, with shadowing)
+     S3 C12_macro_subst(_gen), C12_macro_subst_conv, C12_macro_subst_iff
+        (macros are dynamically scoped: textual substitution is only correct when n is not
+         redefined in scope and no macro of the context mentions n; counterexamples in S5)
+     S5 examples and counterexamples by vm_compute *)
 From Jawk Require Import Base F64 Json Ctx Printer Fn FunBase FunsColl FunsNum FunsNas Expr.
 From Jawk Require Import Subst ReaderLemmas.
 
@@ -217,3 +231,1346 @@ Lemma eval_ECall mf f args c :
 Proof. destruct mf; destruct f; reflexivity. Qed.
 
 End EvalCall.
+
+(* ================================================================== *)
+(* 2. Congruence (monotonicity in le_out) of one call step            *)
+(* ================================================================== *)
+
+Lemma all_vals_mono os1 os2 :
+  Forall2 le_out os1 os2 -> forall vs, all_vals os1 = Some vs -> all_vals os2 = Some vs.
+Proof.
+  induction 1 as [|o1 o2 t1 t2 Ho Ht IH]; cbn [all_vals]; intros vs Hvs; [exact Hvs|].
+  destruct o1 as [v|]; [|discriminate]. rewrite (Ho _ eq_refl).
+  destruct (all_vals t1) as [vs1|] eqn:E; [|discriminate]. rewrite (IH _ eq_refl). exact Hvs.
+Qed.
+
+Lemma all_vals_le os1 os2 (k : list (option json) -> outcome) :
+  Forall2 le_out os1 os2 ->
+  le_out (match all_vals os1 with Some rs => k rs | None => OutOfFuel end)
+         (match all_vals os2 with Some rs => k rs | None => OutOfFuel end).
+Proof.
+  intros HF. destruct (all_vals os1) as [vs|] eqn:E; [|apply le_out_oof].
+  rewrite (all_vals_mono _ _ HF _ E). apply le_out_refl.
+Qed.
+
+Lemma Forall2_map_same {A B} (P : B -> B -> Prop) (g1 g2 : A -> B) l :
+  (forall x, P (g1 x) (g2 x)) -> Forall2 P (map g1 l) (map g2 l).
+Proof. intros H. induction l as [|x t IH]; cbn [map]; constructor; [apply H|exact IH]. Qed.
+
+Lemma Forall2_len {A B} (P : A -> B -> Prop) l1 l2 : Forall2 P l1 l2 -> length l1 = length l2.
+Proof. induction 1 as [|x y t1 t2 Hx Ht IH]; cbn [length]; [reflexivity|f_equal; exact IH]. Qed.
+
+Section Mono.
+Variable opaque : fn -> list (option json) -> option json.
+Variables ev1 ev2 : expr -> ctx -> outcome.
+Variable R : ctx -> ctx -> Prop.
+
+Definition rel_arg (a1 a2 : expr) : Prop :=
+  forall c1 c2, R c1 c2 -> le_out (ev1 a1 c1) (ev2 a2 c2).
+
+Lemma arg_ev_mono args1 args2 :
+  Forall2 rel_arg args1 args2 ->
+  forall i c1 c2, R c1 c2 -> le_out (arg_ev ev1 args1 i c1) (arg_ev ev2 args2 i c2).
+Proof.
+  induction 1 as [|a1 a2 t1 t2 Ha Ht IH]; intros i c1 c2 HR.
+  - apply le_out_refl.
+  - destruct i as [|j].
+    + apply Ha, HR.
+    + exact (IH j c1 c2 HR).
+Qed.
+
+Lemma evs_of_mono args1 args2 :
+  Forall2 rel_arg args1 args2 ->
+  forall c1 c2, R c1 c2 -> Forall2 le_out (evs_of ev1 args1 c1) (evs_of ev2 args2 c2).
+Proof.
+  induction 1 as [|a1 a2 t1 t2 Ha Ht IH]; intros c1 c2 HR; cbn [evs_of]; constructor.
+  - apply Ha, HR.
+  - apply IH, HR.
+Qed.
+
+Hypothesis R_input : forall c1 c2 x, R c1 c2 -> R (with_input c1 x) (with_input c2 x).
+Hypothesis R_inp_eq : forall c1 c2, R c1 c2 -> input c1 = input c2.
+
+Lemma pipe_mono args1 args2 :
+  Forall2 rel_arg args1 args2 ->
+  forall c1 c2, R c1 c2 -> le_out (pipe_of ev1 args1 c1) (pipe_of ev2 args2 c2).
+Proof.
+  induction 1 as [|a1 a2 t1 t2 Ha Ht IH]; intros c1 c2 HR; cbn [pipe_of].
+  - rewrite (R_inp_eq _ _ HR). apply le_out_refl.
+  - destruct (le_out_inv _ _ (Ha _ _ HR)) as [E|E]; rewrite E; [apply le_out_oof|].
+    destruct (ev1 a1 c1) as [[v|]|]; try apply le_out_refl.
+    apply IH, R_input, HR.
+Qed.
+
+Lemma fold_mono (s1 s2 : ctx -> outcome) c1 c2 :
+  (forall x, le_out (s1 (with_input c1 x)) (s2 (with_input c2 x))) ->
+  forall l idx cur, le_out (fold_of s1 c1 l idx cur) (fold_of s2 c2 l idx cur).
+Proof.
+  intros Hs. induction l as [|v t IH]; intros idx cur; cbn [fold_of]; [apply le_out_refl|].
+  destruct (le_out_inv _ _ (Hs (fold_item cur v idx))) as [E|E]; rewrite E; [apply le_out_oof|].
+  destruct (s1 (with_input c1 (fold_item cur v idx))) as [r|]; [apply IH|apply le_out_refl].
+Qed.
+
+Definition plain_kind (k : kind) : Prop :=
+  match k with KSet | KDefine | KAt | KColon => False | _ => True end.
+
+Lemma plain_mono mf1 mf2 f args1 args2 c1 c2 :
+  plain_kind (fn_kind f) -> Forall2 rel_arg args1 args2 -> R c1 c2 ->
+  le_out (eval_call opaque mf1 ev1 f args1 c1) (eval_call opaque mf2 ev2 f args2 c2).
+Proof.
+  intros Hk HF HR. unfold eval_call.
+  pose proof (arg_ev_mono _ _ HF 0%nat _ _ HR) as H0.
+  destruct (fn_kind f) eqn:K; try contradiction.
+  - (* pipe *)
+    apply pipe_mono; [exact HF|]. rewrite <- (R_inp_eq _ _ HR). apply R_input, HR.
+  - (* list binders *)
+    destruct (le_out_inv _ _ H0) as [E|E]; rewrite E; [apply le_out_oof|].
+    destruct (arg_ev ev1 args1 0 c1) as [[[| | | | |l]|]|]; try apply le_out_refl.
+    apply (all_vals_le _ _ (fun rs => list_post f l rs)).
+    apply Forall2_map_same. intros x. apply arg_ev_mono; [exact HF|]. apply R_input, HR.
+  - (* object binders *)
+    destruct (le_out_inv _ _ H0) as [E|E]; rewrite E; [apply le_out_oof|].
+    destruct (arg_ev ev1 args1 0 c1) as [[[| | | |m|]|]|]; try apply le_out_refl.
+    apply (all_vals_le _ _ (fun rs => obj_post f m rs)).
+    apply Forall2_map_same. intros x. apply arg_ev_mono; [exact HF|]. apply R_input, HR.
+  - (* fold *)
+    destruct (le_out_inv _ _ H0) as [E|E]; rewrite E; [apply le_out_oof|].
+    destruct (arg_ev ev1 args1 0 c1) as [[[| | | | |l]|]|]; try apply le_out_refl.
+    cbv zeta. rewrite <- (Forall2_len _ _ _ HF).
+    destruct (Nat.ltb 2 (length args1)).
+    + pose proof (arg_ev_mono _ _ HF 1%nat _ _ HR) as H1.
+      destruct (le_out_inv _ _ H1) as [E1|E1]; rewrite E1; [apply le_out_oof|].
+      destruct (arg_ev ev1 args1 1 c1) as [init|]; [|apply le_out_refl].
+      apply fold_mono. intros x. apply arg_ev_mono; [exact HF|]. apply R_input, HR.
+    + apply fold_mono. intros x. apply arg_ev_mono; [exact HF|]. apply R_input, HR.
+  - (* generic *)
+    apply (all_vals_le _ _ (fun vals => Val (match pure_sem f vals with Some r => r | None => opaque f vals end))).
+    apply evs_of_mono; [exact HF|exact HR].
+Qed.
+
+Lemma set_mono mf1 mf2 f args1 args2 c1 c2 :
+  (forall c1 c2 m v, R c1 c2 -> R (with_variable c1 m v) (with_variable c2 m v)) ->
+  fn_kind f = KSet -> Forall2 rel_arg args1 args2 -> R c1 c2 ->
+  le_out (eval_call opaque mf1 ev1 f args1 c1) (eval_call opaque mf2 ev2 f args2 c2).
+Proof.
+  intros R_var K HF HR. unfold eval_call. rewrite K.
+  pose proof (arg_ev_mono _ _ HF 0%nat _ _ HR) as H0.
+  pose proof (arg_ev_mono _ _ HF 1%nat _ _ HR) as H1.
+  destruct (le_out_inv _ _ H0) as [E|E]; rewrite E; [apply le_out_oof|].
+  destruct (le_out_inv _ _ H1) as [E1|E1]; rewrite E1.
+  - destruct (arg_ev ev1 args1 0 c1) as [[[| | | | |]|]|]; apply le_out_oof.
+  - destruct (arg_ev ev1 args1 0 c1) as [[[| |name| | |]|]|]; try apply le_out_refl.
+    destruct (arg_ev ev1 args1 1 c1) as [[v|]|]; try apply le_out_refl.
+    apply arg_ev_mono; [exact HF|]. apply R_var, HR.
+Qed.
+
+Lemma colon_mono mf1 mf2 f args1 args2 c1 c2 :
+  (forall c1 c2 m, R c1 c2 -> get_variable c1 m = get_variable c2 m) ->
+  fn_kind f = KColon -> Forall2 rel_arg args1 args2 -> R c1 c2 ->
+  le_out (eval_call opaque mf1 ev1 f args1 c1) (eval_call opaque mf2 ev2 f args2 c2).
+Proof.
+  intros R_get K HF HR. unfold eval_call. rewrite K.
+  pose proof (arg_ev_mono _ _ HF 0%nat _ _ HR) as H0.
+  destruct (le_out_inv _ _ H0) as [E|E]; rewrite E; [apply le_out_oof|].
+  destruct (arg_ev ev1 args1 0 c1) as [[[| |name| | |]|]|]; try apply le_out_refl.
+  rewrite (R_get _ _ name HR). apply le_out_refl.
+Qed.
+
+(* define / @ with the same argument list on both sides *)
+Lemma define_mono mf1 mf2 f args c1 c2 :
+  (forall c1 c2 m d, R c1 c2 -> R (with_definition c1 m d) (with_definition c2 m d)) ->
+  fn_kind f = KDefine -> Forall2 rel_arg args args -> R c1 c2 ->
+  le_out (eval_call opaque mf1 ev1 f args c1) (eval_call opaque mf2 ev2 f args c2).
+Proof.
+  intros R_def K HF HR. unfold eval_call. rewrite K.
+  pose proof (arg_ev_mono _ _ HF 0%nat _ _ HR) as H0.
+  destruct (le_out_inv _ _ H0) as [E|E]; rewrite E; [apply le_out_oof|].
+  destruct (arg_ev ev1 args 0 c1) as [[[| |name| | |]|]|]; try apply le_out_refl.
+  destruct (nth_error args 1) as [d|]; [|apply le_out_refl].
+  apply arg_ev_mono; [exact HF|]. apply R_def, HR.
+Qed.
+
+Lemma at_mono mf1 mf2 f args1 args2 c1 c2 :
+  (forall c1 c2 m, R c1 c2 -> get_definition c1 m = get_definition c2 m) ->
+  (forall b c1 c2, R c1 c2 -> le_out (expand opaque mf1 b c1) (expand opaque mf2 b c2)) ->
+  fn_kind f = KAt -> Forall2 rel_arg args1 args2 -> R c1 c2 ->
+  le_out (eval_call opaque mf1 ev1 f args1 c1) (eval_call opaque mf2 ev2 f args2 c2).
+Proof.
+  intros R_get R_exp K HF HR. unfold eval_call. rewrite K.
+  pose proof (arg_ev_mono _ _ HF 0%nat _ _ HR) as H0.
+  destruct (le_out_inv _ _ H0) as [E|E]; rewrite E; [apply le_out_oof|].
+  destruct (arg_ev ev1 args1 0 c1) as [[[| |name| | |]|]|]; try apply le_out_refl.
+  rewrite (R_get _ _ name HR).
+  destruct (get_definition c2 name) as [b|]; [|apply le_out_refl].
+  apply R_exp, HR.
+Qed.
+
+End Mono.
+
+(* ================================================================== *)
+(* 3. Atoms, fuel monotonicity, extensionality in the context          *)
+(* ================================================================== *)
+
+Section Atoms.
+Variable opaque : fn -> list (option json) -> option json.
+
+Lemma eval_EExtract mf ups path c : eval opaque mf (EExtract ups path) c = Val (extract ups path c).
+Proof. destruct mf; reflexivity. Qed.
+Lemma eval_EConst mf v c : eval opaque mf (EConst v) c = Val (Some v).
+Proof. destruct mf; reflexivity. Qed.
+Lemma eval_EVar mf n c : eval opaque mf (EVar n) c = Val (get_variable c n).
+Proof. destruct mf; reflexivity. Qed.
+Lemma eval_ESelected mf n c : eval opaque mf (ESelected n) c = Val (get_selected c n).
+Proof. destruct mf; reflexivity. Qed.
+Lemma eval_EIctx mf k c : eval opaque mf (EIctx k) c = Val (ictx_get k c).
+Proof. destruct mf; reflexivity. Qed.
+Lemma eval_EMacro mf n c :
+  eval opaque mf (EMacro n) c =
+  match get_definition c n with None => Val None | Some b => expand opaque mf b c end.
+Proof. destruct mf; reflexivity. Qed.
+
+Lemma Forall_Forall2_same {A} (P : A -> A -> Prop) l : Forall (fun a => P a a) l -> Forall2 P l l.
+Proof. induction 1 as [|a t Ha Ht IH]; constructor; assumption. Qed.
+
+Lemma Forall_Forall2_map {A} (P : A -> A -> Prop) (g : A -> A) l :
+  Forall (fun a => P a (g a)) l -> Forall2 P l (map g l).
+Proof. induction 1 as [|a t Ha Ht IH]; cbn [map]; constructor; assumption. Qed.
+
+Lemma Forall_Forall2_map_l {A} (P : A -> A -> Prop) (g : A -> A) l :
+  Forall (fun a => P (g a) a) l -> Forall2 P (map g l) l.
+Proof. induction 1 as [|a t Ha Ht IH]; cbn [map]; constructor; assumption. Qed.
+
+(* ---------- more macro fuel never changes a value ---------- *)
+Lemma fuel_step mf :
+  (forall b c, le_out (expand opaque mf b c) (expand opaque (S mf) b c)) ->
+  forall e c, le_out (eval opaque mf e c) (eval opaque (S mf) e c).
+Proof.
+  intros Hexp. induction e as [ups path|v|n|n|n|k|f args IH] using expr_ind_strong; intros c.
+  - rewrite !eval_EExtract. apply le_out_refl.
+  - rewrite !eval_EConst. apply le_out_refl.
+  - rewrite !eval_EVar. apply le_out_refl.
+  - rewrite !eval_EMacro. destruct (get_definition c n) as [b|]; [apply Hexp|apply le_out_refl].
+  - rewrite !eval_ESelected. apply le_out_refl.
+  - rewrite !eval_EIctx. apply le_out_refl.
+  - rewrite !eval_ECall.
+    assert (HF : Forall2 (rel_arg (eval opaque mf) (eval opaque (S mf)) eq) args args).
+    { apply Forall_Forall2_same. revert IH. apply Forall_impl. intros a Ha c1 c2 <-. apply Ha. }
+    destruct (fn_kind f) eqn:K.
+    + apply plain_mono with (R := eq); try (intros; subst; reflexivity); [rewrite K; exact I|exact HF].
+    + apply set_mono with (R := eq); try (intros; subst; reflexivity); assumption.
+    + apply define_mono with (R := eq); try (intros; subst; reflexivity); assumption.
+    + apply at_mono with (R := eq); try (intros; subst; reflexivity); try assumption.
+      intros b c1 c2 <-. apply Hexp.
+    + apply colon_mono with (R := eq); try (intros; subst; reflexivity); assumption.
+    + apply plain_mono with (R := eq); try (intros; subst; reflexivity); [rewrite K; exact I|exact HF].
+    + apply plain_mono with (R := eq); try (intros; subst; reflexivity); [rewrite K; exact I|exact HF].
+    + apply plain_mono with (R := eq); try (intros; subst; reflexivity); [rewrite K; exact I|exact HF].
+    + apply plain_mono with (R := eq); try (intros; subst; reflexivity); [rewrite K; exact I|exact HF].
+Qed.
+
+Lemma fuel_mono_le mf : forall e c, le_out (eval opaque mf e c) (eval opaque (S mf) e c).
+Proof.
+  induction mf as [|m IH]; apply fuel_step.
+  - intros b c. apply le_out_oof.
+  - intros b c. exact (IH b c).
+Qed.
+
+Theorem fuel_mono mf e c r : eval opaque mf e c = Val r -> eval opaque (S mf) e c = Val r.
+Proof. apply fuel_mono_le. Qed.
+
+Lemma expand_le_eval mf b c : le_out (expand opaque mf b c) (eval opaque mf b c).
+Proof. destruct mf as [|m]; [apply le_out_oof|]. exact (fuel_mono_le m b c). Qed.
+
+(* ---------- eval sees the context only through lookups ---------- *)
+Lemma ctx_equiv_sym c c' : ctx_equiv c c' -> ctx_equiv c' c.
+Proof.
+  intros (H1 & H2 & H3 & H4 & H5 & H6). repeat split; try (symmetry; assumption).
+  - intros m. symmetry. apply H5.
+  - intros m. symmetry. apply H6.
+Qed.
+
+Lemma ctx_equiv_with_input c c' x : ctx_equiv c c' -> ctx_equiv (with_input c x) (with_input c' x).
+Proof.
+  intros (H1 & H2 & H3 & H4 & H5 & H6). unfold ctx_equiv, with_input, get_variable, get_definition in *.
+  cbn [input results parents vars defs ic]. rewrite H1, H3. repeat split; assumption.
+Qed.
+Lemma ctx_equiv_with_variable c c' m v : ctx_equiv c c' -> ctx_equiv (with_variable c m v) (with_variable c' m v).
+Proof.
+  intros (H1 & H2 & H3 & H4 & H5 & H6). unfold ctx_equiv, with_variable, get_variable, get_definition in *.
+  cbn [input results parents vars defs ic assoc_str]. repeat split; try assumption.
+  intros k. rewrite H5. reflexivity.
+Qed.
+Lemma ctx_equiv_with_definition c c' m d : ctx_equiv c c' -> ctx_equiv (with_definition c m d) (with_definition c' m d).
+Proof.
+  intros (H1 & H2 & H3 & H4 & H5 & H6). unfold ctx_equiv, with_definition, get_variable, get_definition in *.
+  cbn [input results parents vars defs ic assoc_str]. repeat split; try assumption.
+  intros k. rewrite H6. reflexivity.
+Qed.
+
+Lemma extract_same ups path (c1 c2 : ctx) :
+  input c1 = input c2 -> parents c1 = parents c2 -> extract ups path c1 = extract ups path c2.
+Proof. intros Hi Hp. unfold extract, parent_input. rewrite Hi, Hp. reflexivity. Qed.
+
+Lemma ext_step mf :
+  (forall b c1 c2, ctx_equiv c1 c2 -> le_out (expand opaque mf b c1) (expand opaque mf b c2)) ->
+  forall e c1 c2, ctx_equiv c1 c2 -> le_out (eval opaque mf e c1) (eval opaque mf e c2).
+Proof.
+  intros Hexp. induction e as [ups path|v|n|n|n|k|f args IH] using expr_ind_strong; intros c1 c2 HR.
+  - rewrite !eval_EExtract. destruct HR as (H1 & H2 & H3 & H4 & H5 & H6).
+    rewrite (extract_same ups path c1 c2); [apply le_out_refl|congruence|congruence].
+  - rewrite !eval_EConst. apply le_out_refl.
+  - rewrite !eval_EVar. destruct HR as (H1 & H2 & H3 & H4 & H5 & H6). rewrite H5. apply le_out_refl.
+  - rewrite !eval_EMacro. pose proof HR as (H1 & H2 & H3 & H4 & H5 & H6). rewrite H6.
+    destruct (get_definition c1 n) as [b|]; [apply Hexp, HR|apply le_out_refl].
+  - rewrite !eval_ESelected. destruct HR as (H1 & H2 & H3 & H4 & H5 & H6).
+    unfold get_selected. rewrite H2. apply le_out_refl.
+  - rewrite !eval_EIctx. destruct HR as (H1 & H2 & H3 & H4 & H5 & H6).
+    unfold ictx_get. rewrite H4. apply le_out_refl.
+  - rewrite !eval_ECall.
+    assert (HF : Forall2 (rel_arg (eval opaque mf) (eval opaque mf) ctx_equiv) args args).
+    { apply Forall_Forall2_same. exact IH. }
+    assert (Hin : forall c1 c2 x, ctx_equiv c1 c2 -> ctx_equiv (with_input c1 x) (with_input c2 x))
+      by (intros; apply ctx_equiv_with_input; assumption).
+    assert (Hie : forall c1 c2 : ctx, ctx_equiv c1 c2 -> input c1 = input c2)
+      by (intros a b (H1 & _); symmetry; exact H1).
+    destruct (fn_kind f) eqn:K.
+    + apply plain_mono with (R := ctx_equiv); try assumption. rewrite K; exact I.
+    + apply set_mono with (R := ctx_equiv); try assumption.
+      intros; apply ctx_equiv_with_variable; assumption.
+    + apply define_mono with (R := ctx_equiv); try assumption.
+      intros; apply ctx_equiv_with_definition; assumption.
+    + apply at_mono with (R := ctx_equiv); try assumption.
+      intros a b m (_ & _ & _ & _ & _ & H6). symmetry. apply H6.
+    + apply colon_mono with (R := ctx_equiv); try assumption.
+      intros a b m (_ & _ & _ & _ & H5 & _). symmetry. apply H5.
+    + apply plain_mono with (R := ctx_equiv); try assumption. rewrite K; exact I.
+    + apply plain_mono with (R := ctx_equiv); try assumption. rewrite K; exact I.
+    + apply plain_mono with (R := ctx_equiv); try assumption. rewrite K; exact I.
+    + apply plain_mono with (R := ctx_equiv); try assumption. rewrite K; exact I.
+Qed.
+
+Lemma eval_ext_le mf : forall e c1 c2, ctx_equiv c1 c2 -> le_out (eval opaque mf e c1) (eval opaque mf e c2).
+Proof.
+  induction mf as [|m IH]; apply ext_step.
+  - intros b c1 c2 _. apply le_out_oof.
+  - intros b c1 c2 HR. exact (IH b c1 c2 HR).
+Qed.
+
+Theorem eval_ext mf e c1 c2 : ctx_equiv c1 c2 -> eval opaque mf e c1 = eval opaque mf e c2.
+Proof.
+  intros HR. apply le_out_antisym; apply eval_ext_le; [exact HR|apply ctx_equiv_sym, HR].
+Qed.
+
+End Atoms.
+
+Lemma str_eqb_false_neq a b : str_eqb a b = false -> a <> b.
+Proof. intros E ->. rewrite (proj2 (str_eqb_eq b b) eq_refl) in E. discriminate. Qed.
+Lemma str_eqb_refl a : str_eqb a a = true.
+Proof. apply str_eqb_eq. reflexivity. Qed.
+
+Lemma Forall2_flip {A B} (P : A -> B -> Prop) l1 l2 :
+  Forall2 P l1 l2 -> Forall2 (fun b a => P a b) l2 l1.
+Proof. induction 1; constructor; assumption. Qed.
+Lemma Forall2_imp {A B} (P Q : A -> B -> Prop) l1 l2 :
+  (forall a b, P a b -> Q a b) -> Forall2 P l1 l2 -> Forall2 Q l1 l2.
+Proof. intros H. induction 1; constructor; auto. Qed.
+Lemma Forall_forallb_imp {A} (p : A -> bool) (Q : A -> Prop) l :
+  Forall (fun a => p a = true -> Q a) l -> forallb p l = true -> Forall Q l.
+Proof.
+  induction 1 as [|a t Ha Ht IH]; cbn [forallb]; intros H; constructor;
+    apply andb_true_iff in H; destruct H as [H1 H2]; auto.
+Qed.
+
+Lemma lit_name_inv args m : lit_name args = Some m -> exists rest, args = EConst (JStr m) :: rest.
+Proof.
+  destruct args as [|[ups path|[| |s| | |]|k|k|k|k|f l] rest]; cbn [lit_name]; try discriminate.
+  intros [= ->]. exists rest. reflexivity.
+Qed.
+Lemma is_some_inv {A} (o : option A) : is_some o = true -> exists x, o = Some x.
+Proof. destruct o as [x|]; [exists x; reflexivity|discriminate]. Qed.
+
+Lemma fn_kind_set f : fn_kind f = KSet -> f = F_set.
+Proof. destruct f; try discriminate; reflexivity. Qed.
+Lemma fn_kind_colon f : fn_kind f = KColon -> f = F_colon.
+Proof. destruct f; try discriminate; reflexivity. Qed.
+Lemma fn_kind_define f : fn_kind f = KDefine -> f = F_define.
+Proof. destruct f; try discriminate; reflexivity. Qed.
+Lemma fn_kind_at f : fn_kind f = KAt -> f = F_at.
+Proof. destruct f; try discriminate; reflexivity. Qed.
+
+Section Subst.
+Variable opaque : fn -> list (option json) -> option json.
+
+(* equality version of plain_mono *)
+Lemma plain_eq (ev1 ev2 : expr -> ctx -> outcome) (R : ctx -> ctx -> Prop) :
+  (forall c1 c2 x, R c1 c2 -> R (with_input c1 x) (with_input c2 x)) ->
+  (forall c1 c2, R c1 c2 -> input c1 = input c2) ->
+  forall mf1 mf2 f args1 args2 c1 c2,
+  plain_kind (fn_kind f) ->
+  Forall2 (fun a1 a2 => forall c1 c2, R c1 c2 -> ev1 a1 c1 = ev2 a2 c2) args1 args2 ->
+  R c1 c2 ->
+  eval_call opaque mf1 ev1 f args1 c1 = eval_call opaque mf2 ev2 f args2 c2.
+Proof.
+  intros Hin Hie mf1 mf2 f args1 args2 c1 c2 Hk HF HR. apply le_out_antisym.
+  - apply plain_mono with (R := R); try assumption.
+    revert HF. apply Forall2_imp. intros a b H x y Hxy. apply le_out_of_eq, H, Hxy.
+  - apply plain_mono with (R := fun x y => R y x); try assumption.
+    + intros x y z H. apply Hin, H.
+    + intros x y H. symmetry. apply Hie, H.
+    + apply Forall2_flip. revert HF. apply Forall2_imp.
+      intros a b H x y Hxy. apply le_out_of_eq. symmetry. apply H, Hxy.
+Qed.
+
+Lemma arg_ev_eq (ev1 ev2 : expr -> ctx -> outcome) (R : ctx -> ctx -> Prop) args1 args2 :
+  Forall2 (fun a1 a2 => forall c1 c2, R c1 c2 -> ev1 a1 c1 = ev2 a2 c2) args1 args2 ->
+  forall i c1 c2, R c1 c2 -> arg_ev ev1 args1 i c1 = arg_ev ev2 args2 i c2.
+Proof.
+  induction 1 as [|a1 a2 t1 t2 Ha Ht IH]; intros i c1 c2 HR; [reflexivity|].
+  destruct i as [|j]; [apply Ha, HR|exact (IH j c1 c2 HR)].
+Qed.
+
+(* ================================================================== *)
+(* S1. Unfoldings                                                      *)
+(* ================================================================== *)
+
+Lemma eval_set_lit mf m ev rest c :
+  eval opaque mf (ECall F_set (EConst (JStr m) :: ev :: rest)) c =
+  match eval opaque mf ev c with
+  | Val (Some v) => arg_ev (eval opaque mf) rest 0%nat (with_variable c m v)
+  | Val None => Val None
+  | OutOfFuel => OutOfFuel
+  end.
+Proof. destruct mf; reflexivity. Qed.
+
+Lemma eval_colon_lit mf m rest c :
+  eval opaque mf (ECall F_colon (EConst (JStr m) :: rest)) c = Val (get_variable c m).
+Proof. destruct mf; reflexivity. Qed.
+
+Lemma eval_define_lit mf m d rest c :
+  eval opaque mf (ECall F_define (EConst (JStr m) :: d :: rest)) c =
+  arg_ev (eval opaque mf) rest 0%nat (with_definition c m d).
+Proof. destruct mf; reflexivity. Qed.
+
+Lemma eval_at_lit mf m rest c :
+  eval opaque mf (ECall F_at (EConst (JStr m) :: rest)) c =
+  match get_definition c m with None => Val None | Some b => expand opaque mf b c end.
+Proof. destruct mf; reflexivity. Qed.
+
+Theorem C12_set_unfold mf n ev body c :
+  eval opaque mf (ECall F_set [EConst (JStr n); ev; body]) c =
+  match eval opaque mf ev c with
+  | Val (Some v) => eval opaque mf body (with_variable c n v)
+  | Val None => Val None
+  | OutOfFuel => OutOfFuel
+  end.
+Proof. destruct mf; reflexivity. Qed.
+
+Theorem C12_define_unfold mf n d body c :
+  eval opaque mf (ECall F_define [EConst (JStr n); d; body]) c =
+  eval opaque mf body (with_definition c n d).
+Proof. destruct mf; reflexivity. Qed.
+
+Theorem C12_colon_unfold mf n c :
+  eval opaque mf (ECall F_colon [EConst (JStr n)]) c = Val (get_variable c n).
+Proof. destruct mf; reflexivity. Qed.
+
+Theorem C12_at_unfold mf n c :
+  eval opaque (S mf) (ECall F_at [EConst (JStr n)]) c =
+  match get_definition c n with None => Val None | Some b => eval opaque mf b c end.
+Proof. reflexivity. Qed.
+
+Theorem C12_macro_unfold mf n c :
+  eval opaque (S mf) (EMacro n) c =
+  match get_definition c n with None => Val None | Some b => eval opaque mf b c end.
+Proof. reflexivity. Qed.
+
+Theorem C12_pipe2 mf a b c :
+  eval opaque mf (ECall F_pipe [a; b]) c =
+  match eval opaque mf a (with_input c (input c)) with
+  | Val (Some va) =>
+      match eval opaque mf b (with_input (with_input c (input c)) va) with
+      | Val (Some vb) => Val (Some vb)
+      | Val None => Val None
+      | OutOfFuel => OutOfFuel
+      end
+  | Val None => Val None
+  | OutOfFuel => OutOfFuel
+  end.
+Proof. destruct mf; reflexivity. Qed.
+
+(* what a and b see *)
+Lemma C12_pipe2_ctx_a (c : ctx) :
+  input (with_input c (input c)) = input c /\
+  parents (with_input c (input c)) = input c :: parents c /\
+  vars (with_input c (input c)) = vars c /\ defs (with_input c (input c)) = defs c /\
+  ic (with_input c (input c)) = ic c.
+Proof. repeat split. Qed.
+Lemma C12_pipe2_ctx_b (c : ctx) va :
+  input (with_input (with_input c (input c)) va) = va /\
+  parents (with_input (with_input c (input c)) va) = input c :: input c :: parents c /\
+  parent_input (with_input (with_input c (input c)) va) 1 = input c /\
+  vars (with_input (with_input c (input c)) va) = vars c /\
+  defs (with_input (with_input c (input c)) va) = defs c /\
+  ic (with_input (with_input c (input c)) va) = ic c.
+Proof. repeat split. Qed.
+
+Theorem C12_pipe_nil mf c : eval opaque mf (ECall F_pipe []) c = Val (Some (input c)).
+Proof. destruct mf; reflexivity. Qed.
+
+(* ================================================================== *)
+(* S4. Transparency                                                    *)
+(* ================================================================== *)
+
+Lemma input_with_variable (c : ctx) n v : input (with_variable c n v) = input c.
+Proof. reflexivity. Qed.
+Lemma parents_with_variable (c : ctx) n v : parents (with_variable c n v) = parents c.
+Proof. reflexivity. Qed.
+Lemma input_with_definition (c : ctx) n d : input (with_definition c n d) = input c.
+Proof. reflexivity. Qed.
+Lemma parents_with_definition (c : ctx) n d : parents (with_definition c n d) = parents c.
+Proof. reflexivity. Qed.
+Lemma input_with_variables (c : ctx) vs : input (with_variables c vs) = input c.
+Proof. reflexivity. Qed.
+Lemma parents_with_variables (c : ctx) vs : parents (with_variables c vs) = parents c.
+Proof. reflexivity. Qed.
+Lemma input_with_definitions (c : ctx) ds : input (with_definitions c ds) = input c.
+Proof. reflexivity. Qed.
+Lemma parents_with_definitions (c : ctx) ds : parents (with_definitions c ds) = parents c.
+Proof. reflexivity. Qed.
+Lemma input_with_result (c : ctx) t r : input (with_result c t r) = input c.
+Proof. reflexivity. Qed.
+Lemma parents_with_result (c : ctx) t r : parents (with_result c t r) = parents c.
+Proof. reflexivity. Qed.
+
+Lemma parent_input_with_variable (c : ctx) n v k : parent_input (with_variable c n v) k = parent_input c k.
+Proof. reflexivity. Qed.
+Lemma parent_input_with_definition (c : ctx) n d k : parent_input (with_definition c n d) k = parent_input c k.
+Proof. reflexivity. Qed.
+Lemma parent_input_with_variables (c : ctx) vs k : parent_input (with_variables c vs) k = parent_input c k.
+Proof. reflexivity. Qed.
+Lemma parent_input_with_definitions (c : ctx) ds k : parent_input (with_definitions c ds) k = parent_input c k.
+Proof. reflexivity. Qed.
+Lemma parent_input_with_result (c : ctx) t r k : parent_input (with_result c t r) k = parent_input c k.
+Proof. reflexivity. Qed.
+
+(* every --select sees the same input and parents as the first one *)
+Lemma parent_input_with_results (c : ctx) trs k :
+  parent_input (fold_left (fun c tr => with_result c (fst tr) (snd tr)) trs c) k = parent_input c k.
+Proof.
+  revert c. induction trs as [|tr t IH]; intros c; cbn [fold_left]; [reflexivity|].
+  rewrite IH. reflexivity.
+Qed.
+
+Theorem extract_with_variable mf ups path (c : ctx) n v :
+  eval opaque mf (EExtract ups path) (with_variable c n v) = eval opaque mf (EExtract ups path) c.
+Proof. rewrite !eval_EExtract. reflexivity. Qed.
+Theorem extract_with_definition mf ups path (c : ctx) n d :
+  eval opaque mf (EExtract ups path) (with_definition c n d) = eval opaque mf (EExtract ups path) c.
+Proof. rewrite !eval_EExtract. reflexivity. Qed.
+Theorem extract_with_variables mf ups path (c : ctx) vs :
+  eval opaque mf (EExtract ups path) (with_variables c vs) = eval opaque mf (EExtract ups path) c.
+Proof. rewrite !eval_EExtract. reflexivity. Qed.
+Theorem extract_with_definitions mf ups path (c : ctx) ds :
+  eval opaque mf (EExtract ups path) (with_definitions c ds) = eval opaque mf (EExtract ups path) c.
+Proof. rewrite !eval_EExtract. reflexivity. Qed.
+Theorem extract_with_result mf ups path (c : ctx) t r :
+  eval opaque mf (EExtract ups path) (with_result c t r) = eval opaque mf (EExtract ups path) c.
+Proof. rewrite !eval_EExtract. reflexivity. Qed.
+
+Lemma get_variable_with_variables (c : ctx) vs n : get_variable (with_variables c vs) n = assoc_str n vs.
+Proof. reflexivity. Qed.
+Lemma get_definition_with_definitions (c : ctx) ds n : get_definition (with_definitions c ds) n = assoc_str n ds.
+Proof. reflexivity. Qed.
+Lemma get_variable_with_variable (c : ctx) m x k :
+  get_variable (with_variable c m x) k = if str_eqb k m then Some x else get_variable c k.
+Proof. reflexivity. Qed.
+Lemma get_definition_with_definition (c : ctx) m d k :
+  get_definition (with_definition c m d) k = if str_eqb k m then Some d else get_definition c k.
+Proof. reflexivity. Qed.
+Lemma get_variable_with_definition (c : ctx) m d k : get_variable (with_definition c m d) k = get_variable c k.
+Proof. reflexivity. Qed.
+Lemma get_definition_with_variable (c : ctx) m x k : get_definition (with_variable c m x) k = get_definition c k.
+Proof. reflexivity. Qed.
+Lemma get_variable_with_input (c : ctx) x k : get_variable (with_input c x) k = get_variable c k.
+Proof. reflexivity. Qed.
+Lemma get_definition_with_input (c : ctx) x k : get_definition (with_input c x) k = get_definition c k.
+Proof. reflexivity. Qed.
+Lemma get_variable_with_result (c : ctx) t r k : get_variable (with_result c t r) k = get_variable c k.
+Proof. reflexivity. Qed.
+Lemma get_definition_with_result (c : ctx) t r k : get_definition (with_result c t r) k = get_definition c k.
+Proof. reflexivity. Qed.
+
+(* ================================================================== *)
+(* S2. (set n v e) is substitution of v for :n                         *)
+(* ================================================================== *)
+
+Lemma subst_var_set_lit n v m ev rest :
+  subst_var n v (ECall F_set (EConst (JStr m) :: ev :: rest)) =
+  if str_eqb m n then ECall F_set (EConst (JStr m) :: subst_var n v ev :: rest)
+  else ECall F_set (EConst (JStr m) :: subst_var n v ev :: map (subst_var n v) rest).
+Proof. reflexivity. Qed.
+Lemma subst_var_colon_lit n v m rest :
+  subst_var n v (ECall F_colon (EConst (JStr m) :: rest)) =
+  if str_eqb m n then EConst v else ECall F_colon (EConst (JStr m) :: map (subst_var n v) rest).
+Proof. reflexivity. Qed.
+Lemma subst_var_plain n v f args :
+  fn_kind f <> KSet -> fn_kind f <> KColon ->
+  subst_var n v (ECall f args) = ECall f (map (subst_var n v) args).
+Proof. intros H1 H2. destruct f; try reflexivity; exfalso; [apply H2|apply H1]; reflexivity. Qed.
+
+Lemma agree_var_with_input n v c c' x :
+  ctx_agree_except_var n v c c' -> ctx_agree_except_var n v (with_input c x) (with_input c' x).
+Proof.
+  intros (H1 & H2 & H3 & H4 & H5 & H6 & H7).
+  unfold ctx_agree_except_var, with_input, get_variable in *.
+  cbn [input results parents vars defs ic]. rewrite H1, H3. repeat split; assumption.
+Qed.
+Lemma agree_var_with_variable n v c c' m x :
+  m <> n -> ctx_agree_except_var n v c c' ->
+  ctx_agree_except_var n v (with_variable c m x) (with_variable c' m x).
+Proof.
+  intros Hm (H1 & H2 & H3 & H4 & H5 & H6 & H7).
+  unfold ctx_agree_except_var. rewrite !get_variable_with_variable.
+  cbn [input results parents vars defs ic with_variable]. repeat split; try assumption.
+  - rewrite str_eqb_neq; [exact H6|]. intros E. apply Hm. symmetry. exact E.
+  - intros k Hk. rewrite !get_variable_with_variable. rewrite (H7 k Hk). reflexivity.
+Qed.
+Lemma agree_var_shadow n v c c' x :
+  ctx_agree_except_var n v c c' -> ctx_equiv (with_variable c n x) (with_variable c' n x).
+Proof.
+  intros (H1 & H2 & H3 & H4 & H5 & H6 & H7).
+  unfold ctx_equiv. cbn [input results parents vars defs ic with_variable]. repeat split; try assumption.
+  - intros k. rewrite !get_variable_with_variable.
+    destruct (str_eqb k n) eqn:E; [reflexivity|]. apply H7. apply str_eqb_false_neq, E.
+  - intros k. unfold get_definition. cbn [defs with_variable]. rewrite H4. reflexivity.
+Qed.
+
+Theorem C12_var_subst mf : forall e, var_literal e = true ->
+  forall c c' n v, ctx_agree_except_var n v c c' ->
+  eval opaque mf e c' = eval opaque mf (subst_var n v e) c.
+Proof.
+  induction e as [ups path|x|m|m|m|k|f args IH] using expr_ind_strong; intros HL c c' n v HA.
+  - cbn [subst_var]. rewrite !eval_EExtract. destruct HA as (H1 & H2 & H3 & _).
+    rewrite (extract_same ups path c' c); [reflexivity|assumption|assumption].
+  - cbn [subst_var]. rewrite !eval_EConst. reflexivity.
+  - cbn [subst_var]. destruct (str_eqb m n) eqn:E.
+    + apply str_eqb_eq in E. subst m. rewrite eval_EVar, eval_EConst.
+      destruct HA as (_ & _ & _ & _ & _ & H6 & _). rewrite H6. reflexivity.
+    + rewrite !eval_EVar. destruct HA as (_ & _ & _ & _ & _ & _ & H7).
+      rewrite (H7 m (str_eqb_false_neq _ _ E)). reflexivity.
+  - discriminate HL.
+  - cbn [subst_var]. rewrite !eval_ESelected. destruct HA as (_ & H2 & _).
+    unfold get_selected. rewrite H2. reflexivity.
+  - cbn [subst_var]. rewrite !eval_EIctx. destruct HA as (_ & _ & _ & _ & H5 & _).
+    unfold ictx_get. rewrite H5. reflexivity.
+  - cbn [var_literal] in HL. apply andb_true_iff in HL. destruct HL as [Hhead Hargs].
+    pose proof (Forall_forallb_imp _ _ _ IH Hargs) as IHa. clear IH.
+    assert (HF : forall n v, Forall2 (fun a1 a2 => forall c1 c2, ctx_agree_except_var n v c2 c1 ->
+                   eval opaque mf a1 c1 = eval opaque mf a2 c2) args (map (subst_var n v) args)).
+    { intros n1 v1. apply Forall_Forall2_map. revert IHa. apply Forall_impl.
+      intros a Ha c1 c2 H. apply Ha, H. }
+    assert (Hplain : plain_kind (fn_kind f) ->
+              eval opaque mf (ECall f args) c' = eval opaque mf (subst_var n v (ECall f args)) c).
+    { intros Hk. rewrite subst_var_plain by (intros E; rewrite E in Hk; exact Hk).
+      rewrite !eval_ECall.
+      apply plain_eq with (R := fun c1 c2 => ctx_agree_except_var n v c2 c1); try assumption.
+      - intros c1 c2 y H. apply agree_var_with_input, H.
+      - intros c1 c2 (H1 & _). exact H1.
+      - apply HF. }
+    destruct (fn_kind f) eqn:K; try (apply Hplain; exact I); clear Hplain.
+    + (* set *)
+      apply fn_kind_set in K. subst f. cbn [var_head_ok] in Hhead.
+      apply is_some_inv in Hhead. destruct Hhead as [m Hm].
+      apply lit_name_inv in Hm. destruct Hm as [rest ->].
+      destruct rest as [|ev rest].
+      { cbn [subst_var map]. destruct mf; reflexivity. }
+      inversion IHa as [|? ? _ IHr]; subst. inversion IHr as [|? ? IHev IHrest]; subst.
+      rewrite subst_var_set_lit. destruct (str_eqb m n) eqn:E.
+      * apply str_eqb_eq in E. subst m. rewrite !eval_set_lit.
+        rewrite <- (IHev _ _ _ _ HA).
+        destruct (eval opaque mf ev c') as [[y|]|]; try reflexivity.
+        apply arg_ev_eq with (R := fun c1 c2 => ctx_equiv c2 c1).
+        -- apply Forall_Forall2_same. apply Forall_forall. intros a _ c1 c2 H.
+           apply eval_ext. apply ctx_equiv_sym, H.
+        -- apply agree_var_shadow with (v := v), HA.
+      * rewrite !eval_set_lit. rewrite <- (IHev _ _ _ _ HA).
+        destruct (eval opaque mf ev c') as [[y|]|]; try reflexivity.
+        apply arg_ev_eq with (R := fun c1 c2 => ctx_agree_except_var n v c2 c1).
+        -- apply Forall_Forall2_map. revert IHrest. apply Forall_impl.
+           intros a Ha c1 c2 H. apply Ha, H.
+        -- apply agree_var_with_variable; [apply str_eqb_false_neq, E|exact HA].
+    + (* define *) apply fn_kind_define in K. subst f. discriminate Hhead.
+    + (* @ *) apply fn_kind_at in K. subst f. discriminate Hhead.
+    + (* : *)
+      apply fn_kind_colon in K. subst f. cbn [var_head_ok] in Hhead.
+      apply is_some_inv in Hhead. destruct Hhead as [m Hm].
+      apply lit_name_inv in Hm. destruct Hm as [rest ->].
+      rewrite subst_var_colon_lit. destruct (str_eqb m n) eqn:E.
+      * apply str_eqb_eq in E. subst m. rewrite eval_colon_lit, eval_EConst.
+        destruct HA as (_ & _ & _ & _ & _ & H6 & _). rewrite H6. reflexivity.
+      * rewrite !eval_colon_lit. destruct HA as (_ & _ & _ & _ & _ & _ & H7).
+        rewrite (H7 m (str_eqb_false_neq _ _ E)). reflexivity.
+Qed.
+
+Lemma agree_var_bind (c : ctx) n v : ctx_agree_except_var n v c (with_variable c n v).
+Proof.
+  unfold ctx_agree_except_var. cbn [input results parents vars defs ic with_variable].
+  repeat split.
+  - rewrite get_variable_with_variable, str_eqb_refl. reflexivity.
+  - intros m Hm. rewrite get_variable_with_variable, (str_eqb_neq _ _ Hm). reflexivity.
+Qed.
+
+Theorem C12_set_is_subst mf n v body c : var_literal body = true ->
+  eval opaque mf (ECall F_set [EConst (JStr n); EConst v; body]) c =
+  eval opaque mf (subst_var n v body) c.
+Proof.
+  intros HL. rewrite C12_set_unfold, eval_EConst.
+  apply C12_var_subst; [exact HL|apply agree_var_bind].
+Qed.
+
+(* with a computed value: the bound expression is evaluated once, outside *)
+Theorem C12_set_is_subst_val mf n ev body c v : var_literal body = true ->
+  eval opaque mf ev c = Val (Some v) ->
+  eval opaque mf (ECall F_set [EConst (JStr n); ev; body]) c =
+  eval opaque mf (subst_var n v body) c.
+Proof.
+  intros HL Hev. rewrite C12_set_unfold, Hev.
+  apply C12_var_subst; [exact HL|apply agree_var_bind].
+Qed.
+
+End Subst.
+
+(* ================================================================== *)
+(* S3. (define n d e) is substitution of d for @n                      *)
+(* ================================================================== *)
+
+Lemma subst_macro_at_lit n d m rest :
+  subst_macro n d (ECall F_at (EConst (JStr m) :: rest)) =
+  if str_eqb m n then d else ECall F_at (EConst (JStr m) :: map (subst_macro n d) rest).
+Proof. reflexivity. Qed.
+Lemma subst_macro_define_lit n d m rest :
+  subst_macro n d (ECall F_define (EConst (JStr m) :: rest)) =
+  if str_eqb m n then ECall F_define (EConst (JStr m) :: rest)
+  else ECall F_define (EConst (JStr m) :: map (subst_macro n d) rest).
+Proof. reflexivity. Qed.
+Lemma subst_macro_plain n d f args :
+  fn_kind f <> KAt -> fn_kind f <> KDefine ->
+  subst_macro n d (ECall f args) = ECall f (map (subst_macro n d) args).
+Proof. intros H1 H2. destruct f; try reflexivity; exfalso; [apply H1|apply H2]; reflexivity. Qed.
+
+Lemma map_id_Forall {A} (g : A -> A) l : Forall (fun a => g a = a) l -> map g l = l.
+Proof. induction 1 as [|a t Ha Ht IH]; cbn [map]; [reflexivity|]. rewrite Ha, IH. reflexivity. Qed.
+
+(* a macro body that does not mention n is not changed *)
+Lemma subst_macro_noref n d : forall e,
+  macro_literal e = true -> no_macro_ref n e = true -> subst_macro n d e = e.
+Proof.
+  induction e as [ups path|x|m|m|m|k|f args IH] using expr_ind_strong; intros HL HN; try reflexivity.
+  - cbn [subst_macro]. cbn [no_macro_ref] in HN. destruct (str_eqb m n); [discriminate HN|reflexivity].
+  - cbn [macro_literal] in HL. apply andb_true_iff in HL. destruct HL as [Hhead Hargs].
+    cbn [no_macro_ref] in HN. apply andb_true_iff in HN. destruct HN as [Hn Hnargs].
+    pose proof (Forall_forallb_imp _ _ _ (Forall_forallb_imp _ _ _ IH Hargs) Hnargs) as IHa.
+    apply map_id_Forall in IHa.
+    destruct (fn_kind f) eqn:K;
+      try (rewrite subst_macro_plain by (rewrite K; discriminate); rewrite IHa; reflexivity).
+    + apply fn_kind_define in K. subst f. cbn [macro_head_ok] in Hhead.
+      apply is_some_inv in Hhead. destruct Hhead as [m Hm]. apply lit_name_inv in Hm.
+      destruct Hm as [rest ->]. rewrite subst_macro_define_lit.
+      destruct (str_eqb m n); [reflexivity|]. cbn [map subst_macro] in IHa.
+      injection IHa as IHa. rewrite IHa. reflexivity.
+    + apply fn_kind_at in K. subst f. cbn [macro_head_ok] in Hhead.
+      apply is_some_inv in Hhead. destruct Hhead as [m Hm]. apply lit_name_inv in Hm.
+      destruct Hm as [rest ->]. rewrite subst_macro_at_lit.
+      unfold not_named in Hn. cbn [lit_name] in Hn. destruct (str_eqb m n); [discriminate Hn|].
+      cbn [map subst_macro] in IHa. injection IHa as IHa. rewrite IHa. reflexivity.
+Qed.
+
+(* the invariant relating the substituted side c with the defining side c' *)
+Definition def_rel (n : str) (d : expr) (c c' : ctx) : Prop :=
+  input c' = input c /\ results c' = results c /\ parents c' = parents c /\
+  vars c' = vars c /\ ic c' = ic c /\
+  get_definition c' n = Some d /\
+  (forall m, m <> n -> get_definition c m = option_map (subst_macro n d) (get_definition c' m)) /\
+  (forall m b, get_definition c' m = Some b -> macro_literal b = true /\ no_redefine n b = true).
+
+Lemma def_rel_with_input n d c c' x : def_rel n d c c' -> def_rel n d (with_input c x) (with_input c' x).
+Proof.
+  intros (H1 & H2 & H3 & H4 & H5 & H6 & H7 & H8).
+  unfold def_rel. rewrite !get_definition_with_input.
+  cbn [input results parents vars defs ic with_input]. rewrite H1, H3.
+  repeat split; try assumption.
+  - apply (H8 m b). rewrite get_definition_with_input in H. exact H.
+  - apply (H8 m b). rewrite get_definition_with_input in H. exact H.
+Qed.
+Lemma def_rel_with_variable n d c c' m x :
+  def_rel n d c c' -> def_rel n d (with_variable c m x) (with_variable c' m x).
+Proof.
+  intros (H1 & H2 & H3 & H4 & H5 & H6 & H7 & H8).
+  unfold def_rel. rewrite !get_definition_with_variable.
+  cbn [input results parents vars defs ic with_variable]. rewrite H4.
+  repeat split; try assumption.
+  - apply (H8 m0 b). rewrite get_definition_with_variable in H. exact H.
+  - apply (H8 m0 b). rewrite get_definition_with_variable in H. exact H.
+Qed.
+Lemma def_rel_with_definition n d c c' m dm :
+  m <> n -> macro_literal dm = true -> no_redefine n dm = true -> def_rel n d c c' ->
+  def_rel n d (with_definition c m (subst_macro n d dm)) (with_definition c' m dm).
+Proof.
+  intros Hm HL HR (H1 & H2 & H3 & H4 & H5 & H6 & H7 & H8).
+  unfold def_rel. rewrite !get_definition_with_definition.
+  cbn [input results parents vars defs ic with_definition].
+  repeat split; try assumption.
+  - rewrite str_eqb_neq; [exact H6|]. intros E. apply Hm. symmetry. exact E.
+  - intros k Hk. rewrite !get_definition_with_definition.
+    destruct (str_eqb k m); [reflexivity|apply H7, Hk].
+  - rewrite get_definition_with_definition in H. destruct (str_eqb m0 m).
+    + injection H as <-. exact HL.
+    + apply (H8 m0 b H).
+  - rewrite get_definition_with_definition in H. destruct (str_eqb m0 m).
+    + injection H as <-. exact HR.
+    + apply (H8 m0 b H).
+Qed.
+
+Section Macro.
+Variable opaque : fn -> list (option json) -> option json.
+Variable n : str.
+Variable d : expr.
+Hypothesis d_noref : no_macro_ref n d = true.
+
+Lemma macro_step mf :
+  (forall b c c', macro_literal b = true -> no_redefine n b = true -> def_rel n d c c' ->
+     le_out (expand opaque mf b c') (expand opaque mf (subst_macro n d b) c)) ->
+  forall e, macro_literal e = true -> no_redefine n e = true ->
+  forall c c', def_rel n d c c' ->
+  le_out (eval opaque mf e c') (eval opaque mf (subst_macro n d e) c).
+Proof.
+  intros Hexp.
+  assert (Hname : forall m c c', def_rel n d c c' ->
+    le_out (match get_definition c' m with None => Val None | Some b => expand opaque mf b c' end)
+           (eval opaque mf (if str_eqb m n then d else EMacro m) c)).
+  { intros m c c' HR. pose proof HR as (H1 & H2 & H3 & H4 & H5 & H6 & H7 & H8).
+    destruct (str_eqb m n) eqn:E.
+    - apply str_eqb_eq in E. subst m. rewrite H6. destruct (H8 _ _ H6) as [HLd HRd].
+      eapply le_out_trans; [apply (Hexp d c c' HLd HRd HR)|].
+      rewrite (subst_macro_noref n d d HLd d_noref). apply expand_le_eval.
+    - rewrite eval_EMacro. rewrite (H7 m (str_eqb_false_neq _ _ E)).
+      destruct (get_definition c' m) as [b|] eqn:G; cbn [option_map]; [|apply le_out_refl].
+      destruct (H8 _ _ G) as [HLb HRb]. apply Hexp; assumption. }
+  induction e as [ups path|x|m|m|m|k|f args IH] using expr_ind_strong; intros HL HN c c' HR.
+  - cbn [subst_macro]. rewrite !eval_EExtract. destruct HR as (H1 & H2 & H3 & _).
+    rewrite (extract_same ups path c' c); [apply le_out_refl|assumption|assumption].
+  - cbn [subst_macro]. rewrite !eval_EConst. apply le_out_refl.
+  - cbn [subst_macro]. rewrite !eval_EVar. destruct HR as (_ & _ & _ & H4 & _).
+    unfold get_variable. rewrite H4. apply le_out_refl.
+  - cbn [subst_macro]. rewrite eval_EMacro. apply Hname, HR.
+  - cbn [subst_macro]. rewrite !eval_ESelected. destruct HR as (_ & H2 & _).
+    unfold get_selected. rewrite H2. apply le_out_refl.
+  - cbn [subst_macro]. rewrite !eval_EIctx. destruct HR as (_ & _ & _ & _ & H5 & _).
+    unfold ictx_get. rewrite H5. apply le_out_refl.
+  - cbn [macro_literal] in HL. apply andb_true_iff in HL. destruct HL as [Hhead Hargs].
+    cbn [no_redefine] in HN. apply andb_true_iff in HN. destruct HN as [Hn Hnargs].
+    pose proof (Forall_forallb_imp _ _ _ (Forall_forallb_imp _ _ _ IH Hargs) Hnargs) as IHa.
+    clear IH.
+    assert (HF : Forall2 (rel_arg (eval opaque mf) (eval opaque mf) (fun c1 c2 => def_rel n d c2 c1))
+                   args (map (subst_macro n d) args)).
+    { apply Forall_Forall2_map. revert IHa. apply Forall_impl. intros a Ha c1 c2 H. apply Ha, H. }
+    assert (Hin : forall c1 c2 x, def_rel n d c2 c1 -> def_rel n d (with_input c2 x) (with_input c1 x))
+      by (intros; apply def_rel_with_input; assumption).
+    assert (Hie : forall c1 c2 : ctx, def_rel n d c2 c1 -> input c1 = input c2)
+      by (intros a b (H1 & _); exact H1).
+    assert (Hplain : plain_kind (fn_kind f) ->
+      le_out (eval opaque mf (ECall f args) c') (eval opaque mf (subst_macro n d (ECall f args)) c)).
+    { intros Hk. rewrite subst_macro_plain by (intros E; rewrite E in Hk; exact Hk).
+      rewrite !eval_ECall.
+      apply plain_mono with (R := fun c1 c2 => def_rel n d c2 c1); assumption. }
+    destruct (fn_kind f) eqn:K; try (apply Hplain; exact I); clear Hplain.
+    + (* set *)
+      rewrite subst_macro_plain by (rewrite K; discriminate). rewrite !eval_ECall.
+      apply set_mono with (R := fun c1 c2 => def_rel n d c2 c1); try assumption.
+      intros; apply def_rel_with_variable; assumption.
+    + (* define *)
+      apply fn_kind_define in K. subst f. cbn [macro_head_ok] in Hhead.
+      apply is_some_inv in Hhead. destruct Hhead as [m Hm].
+      apply lit_name_inv in Hm. destruct Hm as [rest ->].
+      unfold not_named in Hn. cbn [lit_name] in Hn.
+      rewrite subst_macro_define_lit. destruct (str_eqb m n) eqn:E; [discriminate Hn|].
+      destruct rest as [|dm rest].
+      { apply le_out_of_eq. destruct mf; reflexivity. }
+      cbn [map]. rewrite !eval_define_lit.
+      cbn [forallb] in Hargs, Hnargs.
+      apply andb_true_iff in Hargs. destruct Hargs as [_ Hargs].
+      apply andb_true_iff in Hargs. destruct Hargs as [HLdm _].
+      apply andb_true_iff in Hnargs. destruct Hnargs as [_ Hnargs].
+      apply andb_true_iff in Hnargs. destruct Hnargs as [HRdm _].
+      inversion HF as [|? ? ? ? _ HF1]; subst. inversion HF1 as [|? ? ? ? _ HF2]; subst.
+      apply arg_ev_mono with (R := fun c1 c2 => def_rel n d c2 c1); [exact HF2|].
+      apply def_rel_with_definition; try assumption. apply str_eqb_false_neq, E.
+    + (* @ *)
+      apply fn_kind_at in K. subst f. cbn [macro_head_ok] in Hhead.
+      apply is_some_inv in Hhead. destruct Hhead as [m Hm].
+      apply lit_name_inv in Hm. destruct Hm as [rest ->].
+      rewrite subst_macro_at_lit, eval_at_lit.
+      eapply le_out_trans; [apply (Hname m c c' HR)|].
+      destruct (str_eqb m n); [apply le_out_refl|].
+      rewrite eval_EMacro, eval_at_lit. apply le_out_refl.
+    + (* : *)
+      rewrite subst_macro_plain by (rewrite K; discriminate). rewrite !eval_ECall.
+      apply colon_mono with (R := fun c1 c2 => def_rel n d c2 c1); try assumption.
+      intros a b m (_ & _ & _ & H4 & _). unfold get_variable. rewrite H4. reflexivity.
+Qed.
+
+Theorem C12_macro_subst_gen mf : forall e, macro_literal e = true -> no_redefine n e = true ->
+  forall c c', def_rel n d c c' ->
+  le_out (eval opaque mf e c') (eval opaque mf (subst_macro n d e) c).
+Proof.
+  induction mf as [|m IH]; apply macro_step.
+  - intros b c c' _ _ _. apply le_out_oof.
+  - intros b c c' HL HR H. exact (IH b HL HR c c' H).
+Qed.
+
+Lemma def_rel_of_agree c c' :
+  macro_literal d = true -> no_redefine n d = true ->
+  ctx_agree_except_def n d c c' ->
+  (forall m b, get_definition c m = Some b ->
+     macro_literal b = true /\ no_redefine n b = true /\ no_macro_ref n b = true) ->
+  def_rel n d c c'.
+Proof.
+  intros HLd HRd (H1 & H2 & H3 & H4 & H5 & H6 & H7) Hc.
+  unfold def_rel. repeat split; try assumption.
+  - intros m Hm. rewrite (H7 m Hm). destruct (get_definition c m) as [b|] eqn:G; [|reflexivity].
+    destruct (Hc _ _ G) as (Hb1 & Hb2 & Hb3). cbn [option_map].
+    rewrite (subst_macro_noref n d b Hb1 Hb3). reflexivity.
+  - destruct (str_eqb m n) eqn:E.
+    + apply str_eqb_eq in E. subst m. rewrite H6 in H. injection H as <-. exact HLd.
+    + rewrite (H7 m (str_eqb_false_neq _ _ E)) in H. apply (Hc _ _ H).
+  - destruct (str_eqb m n) eqn:E.
+    + apply str_eqb_eq in E. subst m. rewrite H6 in H. injection H as <-. exact HRd.
+    + rewrite (H7 m (str_eqb_false_neq _ _ E)) in H. apply (Hc _ _ H).
+Qed.
+
+(* the statement of the task, with the two restrictions that are needed (see the counterexamples
+   below): n is not redefined inside e or d, and no macro visible in c mentions n or redefines it *)
+Theorem C12_macro_subst mf e c c' r :
+  macro_literal e = true -> no_redefine n e = true ->
+  macro_literal d = true -> no_redefine n d = true ->
+  ctx_agree_except_def n d c c' ->
+  (forall m b, get_definition c m = Some b ->
+     macro_literal b = true /\ no_redefine n b = true /\ no_macro_ref n b = true) ->
+  eval opaque mf e c' = Val r -> eval opaque mf (subst_macro n d e) c = Val r.
+Proof.
+  intros HLe HRe HLd HRd HA Hc. apply C12_macro_subst_gen; try assumption.
+  apply def_rel_of_agree; assumption.
+Qed.
+
+Lemma agree_def_bind (c : ctx) : ctx_agree_except_def n d c (with_definition c n d).
+Proof.
+  unfold ctx_agree_except_def. cbn [input results parents vars defs ic with_definition].
+  repeat split.
+  - rewrite get_definition_with_definition, str_eqb_refl. reflexivity.
+  - intros m Hm. rewrite get_definition_with_definition, (str_eqb_neq _ _ Hm). reflexivity.
+Qed.
+
+Theorem C12_define_is_subst mf body c r :
+  macro_literal body = true -> no_redefine n body = true ->
+  macro_literal d = true -> no_redefine n d = true ->
+  (forall m b, get_definition c m = Some b ->
+     macro_literal b = true /\ no_redefine n b = true /\ no_macro_ref n b = true) ->
+  eval opaque mf (ECall F_define [EConst (JStr n); d; body]) c = Val r ->
+  eval opaque mf (subst_macro n d body) c = Val r.
+Proof.
+  intros HLe HRe HLd HRd Hc. rewrite C12_define_unfold.
+  apply C12_macro_subst; try assumption. apply agree_def_bind.
+Qed.
+
+(* at top level (no macro defined yet) the context condition is void *)
+Corollary C12_define_is_subst_top mf body c r :
+  defs c = [] ->
+  macro_literal body = true -> no_redefine n body = true ->
+  macro_literal d = true -> no_redefine n d = true ->
+  eval opaque mf (ECall F_define [EConst (JStr n); d; body]) c = Val r ->
+  eval opaque mf (subst_macro n d body) c = Val r.
+Proof.
+  intros Hd HLe HRe HLd HRd. apply C12_define_is_subst; try assumption.
+  intros m b. unfold get_definition. rewrite Hd. discriminate.
+Qed.
+
+End Macro.
+
+(* ---------- converse: the substituted expression needs less fuel ---------- *)
+Section MacroConv.
+Variable opaque : fn -> list (option json) -> option json.
+Variable n : str.
+Variable d : expr.
+Hypothesis d_noref : no_macro_ref n d = true.
+
+Lemma fuel_mono_le_plus k mf e c : le_out (eval opaque mf e c) (eval opaque (k + mf) e c).
+Proof.
+  induction k as [|k IH]; [apply le_out_refl|].
+  eapply le_out_trans; [exact IH|]. apply fuel_mono_le.
+Qed.
+
+Lemma conv_step mf F (HdP : Prop) :
+  (forall b c c', macro_literal b = true -> no_redefine n b = true -> def_rel n d c c' ->
+     le_out (expand opaque mf (subst_macro n d b) c) (expand opaque F b c')) ->
+  (HdP -> forall c c', def_rel n d c c' -> le_out (eval opaque mf d c) (expand opaque F d c')) ->
+  forall e, macro_literal e = true -> no_redefine n e = true ->
+  (no_macro_ref n e = true \/ HdP) ->
+  forall c c', def_rel n d c c' ->
+  le_out (eval opaque mf (subst_macro n d e) c) (eval opaque F e c').
+Proof.
+  intros Hexp Hd.
+  assert (Hname : forall m c c', def_rel n d c c' -> (str_eqb m n = false \/ HdP) ->
+    le_out (eval opaque mf (if str_eqb m n then d else EMacro m) c)
+           (match get_definition c' m with None => Val None | Some b => expand opaque F b c' end)).
+  { intros m c c' HR Hor. pose proof HR as (H1 & H2 & H3 & H4 & H5 & H6 & H7 & H8).
+    destruct (str_eqb m n) eqn:E.
+    - apply str_eqb_eq in E. subst m. rewrite H6. destruct Hor as [Hor|Hor]; [discriminate Hor|].
+      apply (Hd Hor c c' HR).
+    - rewrite eval_EMacro. rewrite (H7 m (str_eqb_false_neq _ _ E)).
+      destruct (get_definition c' m) as [b|] eqn:G; cbn [option_map]; [|apply le_out_refl].
+      destruct (H8 _ _ G) as [HLb HRb]. apply Hexp; assumption. }
+  induction e as [ups path|x|m|m|m|k|f args IH] using expr_ind_strong; intros HL HN Hor c c' HR.
+  - cbn [subst_macro]. rewrite !eval_EExtract. destruct HR as (H1 & H2 & H3 & _).
+    rewrite (extract_same ups path c' c); [apply le_out_refl|assumption|assumption].
+  - cbn [subst_macro]. rewrite !eval_EConst. apply le_out_refl.
+  - cbn [subst_macro]. rewrite !eval_EVar. destruct HR as (_ & _ & _ & H4 & _).
+    unfold get_variable. rewrite H4. apply le_out_refl.
+  - cbn [subst_macro]. rewrite (eval_EMacro opaque F). apply Hname; [exact HR|].
+    destruct Hor as [Hor|Hor]; [left|right; exact Hor].
+    cbn [no_macro_ref] in Hor. destruct (str_eqb m n); [discriminate Hor|reflexivity].
+  - cbn [subst_macro]. rewrite !eval_ESelected. destruct HR as (_ & H2 & _).
+    unfold get_selected. rewrite H2. apply le_out_refl.
+  - cbn [subst_macro]. rewrite !eval_EIctx. destruct HR as (_ & _ & _ & _ & H5 & _).
+    unfold ictx_get. rewrite H5. apply le_out_refl.
+  - cbn [macro_literal] in HL. apply andb_true_iff in HL. destruct HL as [Hhead Hargs].
+    cbn [no_redefine] in HN. apply andb_true_iff in HN. destruct HN as [Hn Hnargs].
+    assert (Hor' : (match f with F_at => not_named n args | _ => true end = true /\
+                    forallb (no_macro_ref n) args = true) \/ HdP).
+    { destruct Hor as [Hor|Hor]; [left|right; exact Hor].
+      cbn [no_macro_ref] in Hor. apply andb_true_iff in Hor. exact Hor. }
+    clear Hor.
+    assert (IHa : Forall (fun a => forall c c', def_rel n d c c' ->
+              le_out (eval opaque mf (subst_macro n d a) c) (eval opaque F a c')) args).
+    { pose proof (Forall_forallb_imp _ _ _ (Forall_forallb_imp _ _ _ IH Hargs) Hnargs) as IH1.
+      destruct Hor' as [[_ Hor]|Hor].
+      - apply (Forall_forallb_imp (no_macro_ref n) _ args); [|exact Hor].
+        revert IH1. apply Forall_impl. intros a Ha Hna. apply Ha. left. exact Hna.
+      - revert IH1. apply Forall_impl. intros a Ha. apply Ha. right. exact Hor. }
+    clear IH.
+    assert (HF : Forall2 (rel_arg (eval opaque mf) (eval opaque F) (def_rel n d))
+                   (map (subst_macro n d) args) args).
+    { apply Forall_Forall2_map_l. revert IHa. apply Forall_impl. intros a Ha c1 c2 H. apply Ha, H. }
+    assert (Hin : forall c1 c2 x, def_rel n d c1 c2 -> def_rel n d (with_input c1 x) (with_input c2 x))
+      by (intros; apply def_rel_with_input; assumption).
+    assert (Hie : forall c1 c2 : ctx, def_rel n d c1 c2 -> input c1 = input c2)
+      by (intros a b (H1 & _); symmetry; exact H1).
+    assert (Hplain : plain_kind (fn_kind f) ->
+      le_out (eval opaque mf (subst_macro n d (ECall f args)) c) (eval opaque F (ECall f args) c')).
+    { intros Hk. rewrite subst_macro_plain by (intros E; rewrite E in Hk; exact Hk).
+      rewrite !eval_ECall.
+      apply plain_mono with (R := def_rel n d); assumption. }
+    destruct (fn_kind f) eqn:K; try (apply Hplain; exact I); clear Hplain.
+    + (* set *)
+      rewrite subst_macro_plain by (rewrite K; discriminate). rewrite !eval_ECall.
+      apply set_mono with (R := def_rel n d); try assumption.
+      intros; apply def_rel_with_variable; assumption.
+    + (* define *)
+      apply fn_kind_define in K. subst f. cbn [macro_head_ok] in Hhead.
+      apply is_some_inv in Hhead. destruct Hhead as [m Hm].
+      apply lit_name_inv in Hm. destruct Hm as [rest ->].
+      unfold not_named in Hn. cbn [lit_name] in Hn.
+      rewrite subst_macro_define_lit. destruct (str_eqb m n) eqn:E; [discriminate Hn|].
+      destruct rest as [|dm rest].
+      { apply le_out_of_eq. destruct mf; destruct F; reflexivity. }
+      cbn [map]. rewrite !eval_define_lit.
+      cbn [forallb] in Hargs, Hnargs.
+      apply andb_true_iff in Hargs. destruct Hargs as [_ Hargs].
+      apply andb_true_iff in Hargs. destruct Hargs as [HLdm _].
+      apply andb_true_iff in Hnargs. destruct Hnargs as [_ Hnargs].
+      apply andb_true_iff in Hnargs. destruct Hnargs as [HRdm _].
+      cbn [map] in HF.
+      inversion HF as [|? ? ? ? _ HF1]; subst. inversion HF1 as [|? ? ? ? _ HF2]; subst.
+      apply arg_ev_mono with (R := def_rel n d); [exact HF2|].
+      apply def_rel_with_definition; try assumption. apply str_eqb_false_neq, E.
+    + (* @ *)
+      apply fn_kind_at in K. subst f. cbn [macro_head_ok] in Hhead.
+      apply is_some_inv in Hhead. destruct Hhead as [m Hm].
+      apply lit_name_inv in Hm. destruct Hm as [rest ->].
+      rewrite subst_macro_at_lit, (eval_at_lit opaque F).
+      eapply le_out_trans; [|apply (Hname m c c' HR)].
+      * destruct (str_eqb m n); [apply le_out_refl|].
+        rewrite eval_EMacro, eval_at_lit. apply le_out_refl.
+      * destruct Hor' as [[Hor _]|Hor]; [left|right; exact Hor].
+        unfold not_named in Hor. cbn [lit_name] in Hor.
+        destruct (str_eqb m n); [discriminate Hor|reflexivity].
+    + (* : *)
+      rewrite subst_macro_plain by (rewrite K; discriminate). rewrite !eval_ECall.
+      apply colon_mono with (R := def_rel n d); try assumption.
+      intros a b m (_ & _ & _ & H4 & _). unfold get_variable. rewrite H4. reflexivity.
+Qed.
+
+Lemma conv_both mf :
+  (forall e, macro_literal e = true -> no_redefine n e = true -> no_macro_ref n e = true ->
+     forall c c', def_rel n d c c' ->
+     le_out (eval opaque mf (subst_macro n d e) c) (eval opaque (mf + mf) e c')) /\
+  (forall e, macro_literal e = true -> no_redefine n e = true ->
+     forall c c', def_rel n d c c' ->
+     le_out (eval opaque mf (subst_macro n d e) c) (eval opaque (S (mf + mf)) e c')).
+Proof.
+  induction mf as [|m [IH1 IH2]].
+  - assert (P1 : forall e, macro_literal e = true -> no_redefine n e = true -> no_macro_ref n e = true ->
+       forall c c', def_rel n d c c' ->
+       le_out (eval opaque 0 (subst_macro n d e) c) (eval opaque (0 + 0) e c')).
+    { intros e HL HN HR. apply (conv_step 0 (0 + 0) False); try assumption.
+      - intros. apply le_out_oof.
+      - intros [].
+      - left. exact HR. }
+    split; [exact P1|].
+    intros e HL HN. apply (conv_step 0 (S (0 + 0)) True); try assumption.
+    + intros. apply le_out_oof.
+    + intros _ c c' HR. pose proof HR as (_ & _ & _ & _ & _ & H6 & _ & H8).
+      destruct (H8 _ _ H6) as [HLd HRd].
+      rewrite <- (subst_macro_noref n d d HLd d_noref) at 1.
+      apply (P1 d HLd HRd d_noref c c' HR).
+    + right. exact I.
+  - assert (E : S m + S m = S (S (m + m))) by (rewrite Nat.add_succ_r; reflexivity).
+    rewrite E.
+    assert (P1 : forall e, macro_literal e = true -> no_redefine n e = true -> no_macro_ref n e = true ->
+       forall c c', def_rel n d c c' ->
+       le_out (eval opaque (S m) (subst_macro n d e) c) (eval opaque (S (S (m + m))) e c')).
+    { intros e HL HN HR. apply (conv_step (S m) (S (S (m + m))) False); try assumption.
+      - intros b c c' HLb HRb H. exact (IH2 b HLb HRb c c' H).
+      - intros [].
+      - left. exact HR. }
+    split; [exact P1|].
+    intros e HL HN. apply (conv_step (S m) (S (S (S (m + m)))) True); try assumption.
+    + intros b c c' HLb HRb H. cbn [expand].
+      eapply le_out_trans; [exact (IH2 b HLb HRb c c' H)|]. apply fuel_mono_le.
+    + intros _ c c' HR. pose proof HR as (_ & _ & _ & _ & _ & H6 & _ & H8).
+      destruct (H8 _ _ H6) as [HLd HRd].
+      rewrite <- (subst_macro_noref n d d HLd d_noref) at 1.
+      apply (P1 d HLd HRd d_noref c c' HR).
+    + right. exact I.
+Qed.
+
+Theorem C12_macro_subst_conv mf e c c' r :
+  macro_literal e = true -> no_redefine n e = true ->
+  macro_literal d = true -> no_redefine n d = true ->
+  ctx_agree_except_def n d c c' ->
+  (forall m b, get_definition c m = Some b ->
+     macro_literal b = true /\ no_redefine n b = true /\ no_macro_ref n b = true) ->
+  eval opaque mf (subst_macro n d e) c = Val r -> eval opaque (S (mf + mf)) e c' = Val r.
+Proof.
+  intros HLe HRe HLd HRd HA Hc. apply (proj2 (conv_both mf)); try assumption.
+  apply def_rel_of_agree; assumption.
+Qed.
+
+(* both directions, fuel abstracted away *)
+Theorem C12_macro_subst_iff e c c' r :
+  macro_literal e = true -> no_redefine n e = true ->
+  macro_literal d = true -> no_redefine n d = true ->
+  ctx_agree_except_def n d c c' ->
+  (forall m b, get_definition c m = Some b ->
+     macro_literal b = true /\ no_redefine n b = true /\ no_macro_ref n b = true) ->
+  (exists mf, eval opaque mf e c' = Val r) <-> (exists mf, eval opaque mf (subst_macro n d e) c = Val r).
+Proof.
+  intros HLe HRe HLd HRd HA Hc. split; intros [mf H].
+  - exists mf. apply (C12_macro_subst opaque n d d_noref mf e c c' r); assumption.
+  - exists (S (mf + mf)). apply (C12_macro_subst_conv mf e c c' r); assumption.
+Qed.
+
+End MacroConv.
+
+(* ---------- shadowing: the inner binding wins ---------- *)
+Section Shadow.
+Variable opaque : fn -> list (option json) -> option json.
+
+Theorem C12_set_shadow mf n v1 v2 body c :
+  eval opaque mf (ECall F_set [EConst (JStr n); EConst v1; ECall F_set [EConst (JStr n); EConst v2; body]]) c =
+  eval opaque mf (ECall F_set [EConst (JStr n); EConst v2; body]) c.
+Proof.
+  rewrite !C12_set_unfold, !eval_EConst, C12_set_unfold, eval_EConst.
+  apply eval_ext. unfold ctx_equiv.
+  cbn [input results parents vars defs ic with_variable]. repeat split.
+  intros m. rewrite !get_variable_with_variable. destruct (str_eqb m n); reflexivity.
+Qed.
+
+Theorem C12_define_shadow mf n d1 d2 body c :
+  eval opaque mf (ECall F_define [EConst (JStr n); d1; ECall F_define [EConst (JStr n); d2; body]]) c =
+  eval opaque mf (ECall F_define [EConst (JStr n); d2; body]) c.
+Proof.
+  rewrite !C12_define_unfold.
+  apply eval_ext. unfold ctx_equiv.
+  cbn [input results parents vars defs ic with_definition]. repeat split.
+  intros m. rewrite !get_definition_with_definition. destruct (str_eqb m n); reflexivity.
+Qed.
+End Shadow.
+
+(* ================================================================== *)
+(* S5. Examples and counterexamples                                    *)
+(* ================================================================== *)
+
+Module Examples.
+Local Open Scope N_scope.
+Definition s_name : str := [110; 97; 109; 101].
+Definition s_arr : str := [97; 114; 114].
+Definition s_x : str := [120].
+Definition s_n : str := [110].
+Definition s_k : str := [107].
+Definition s_m : str := [109].
+Definition s_N : str := [78].
+Definition one : json := JNum (NPos 1).
+Definition two : json := JNum (NPos 2).
+
+(* {"name":"N","arr":[1,2]} *)
+Definition inp : json := JObj [(s_name, JStr s_N); (s_arr, JArr [one; two])].
+
+(* (map .arr (set "x" 1 ^.name)) *)
+Definition e_map_set : expr :=
+  ECall F_map [EExtract 0%nat (Some [SKey s_arr]);
+               ECall F_set [EConst (JStr s_x); EConst one; EExtract 1%nat (Some [SKey s_name])]].
+Example ex_map_set :
+  eval no_opaque 5%nat e_map_set (new_with_no_context inp) = Val (Some (JArr [JStr s_N; JStr s_N])).
+Proof. vm_compute. reflexivity. Qed.
+
+(* (set "x" "N" (map .arr (? (= . 1) :x (set "x" ^.name (: "x"))))): inner set shadows *)
+Definition e_set_body : expr :=
+  ECall F_map [EExtract 0%nat (Some [SKey s_arr]);
+    ECall F_if [ECall F_eq [EExtract 0%nat None; EConst one];
+                EVar s_x;
+                ECall F_set [EConst (JStr s_x); EConst two; ECall F_colon [EConst (JStr s_x)]]]].
+Example ex_set_subst_l :
+  eval no_opaque 0%nat (ECall F_set [EConst (JStr s_x); EConst (JStr s_N); e_set_body]) (new_with_no_context inp)
+  = Val (Some (JArr [JStr s_N; two])).
+Proof. vm_compute. reflexivity. Qed.
+Example ex_set_subst_r :
+  eval no_opaque 0%nat (subst_var s_x (JStr s_N) e_set_body) (new_with_no_context inp)
+  = Val (Some (JArr [JStr s_N; two])).
+Proof. vm_compute. reflexivity. Qed.
+Example ex_set_subst_syntax :
+  subst_var s_x (JStr s_N) e_set_body =
+  ECall F_map [EExtract 0%nat (Some [SKey s_arr]);
+    ECall F_if [ECall F_eq [EExtract 0%nat None; EConst one];
+                EConst (JStr s_N);
+                ECall F_set [EConst (JStr s_x); EConst two; ECall F_colon [EConst (JStr s_x)]]]].
+Proof. vm_compute. reflexivity. Qed.
+Example ex_set_body_literal : var_literal e_set_body = true.
+Proof. vm_compute. reflexivity. Qed.
+
+(* (define "m" ^.name (map .arr @m)): the body is expanded at the use site, where ^ is the root *)
+Definition e_def_body : expr := ECall F_map [EExtract 0%nat (Some [SKey s_arr]); EMacro s_m].
+Definition d_name : expr := EExtract 1%nat (Some [SKey s_name]).
+Example ex_define_l :
+  eval no_opaque 1%nat (ECall F_define [EConst (JStr s_m); d_name; e_def_body]) (new_with_no_context inp)
+  = Val (Some (JArr [JStr s_N; JStr s_N])).
+Proof. vm_compute. reflexivity. Qed.
+Example ex_define_r :
+  eval no_opaque 0%nat (subst_macro s_m d_name e_def_body) (new_with_no_context inp)
+  = Val (Some (JArr [JStr s_N; JStr s_N])).
+Proof. vm_compute. reflexivity. Qed.
+(* the expansion costs fuel on the left only *)
+Example ex_define_fuel :
+  eval no_opaque 0%nat (ECall F_define [EConst (JStr s_m); d_name; e_def_body]) (new_with_no_context inp)
+  = OutOfFuel.
+Proof. vm_compute. reflexivity. Qed.
+
+(* (| .name ^) and (| .name ^^): b sees a's value as input, the previous input as parent, twice *)
+Example ex_pipe_parent :
+  eval no_opaque 0%nat (ECall F_pipe [EExtract 0%nat (Some [SKey s_name]); EExtract 1%nat None]) (new_with_no_context inp)
+  = Val (Some inp) /\
+  eval no_opaque 0%nat (ECall F_pipe [EExtract 0%nat (Some [SKey s_name]); EExtract 2%nat None]) (new_with_no_context inp)
+  = Val (Some inp) /\
+  eval no_opaque 0%nat (ECall F_pipe [EExtract 0%nat (Some [SKey s_name]); EExtract 0%nat None]) (new_with_no_context inp)
+  = Val (Some (JStr s_N)).
+Proof. vm_compute. repeat split. Qed.
+
+(* ---------- why C12_macro_subst needs its two extra hypotheses ---------- *)
+
+(* (1) dynamic scope: a macro already in the context mentions n.
+       c  : m := @n            c' : n := 1, m := @n        e = @m
+       e under c' is 1; the substituted e (= @m, nothing to replace) under c is nothing. *)
+Definition cx1_c : ctx := with_definition (new_with_no_context JNull) s_m (EMacro s_n).
+Definition cx1_c' : ctx := with_definition cx1_c s_n (EConst one).
+Example cx1_hyps :
+  macro_literal (EMacro s_m) = true /\ no_redefine s_n (EMacro s_m) = true /\
+  no_macro_ref s_n (EConst one) = true /\ macro_literal (EConst one) = true /\
+  ctx_agree_except_def s_n (EConst one) cx1_c cx1_c'.
+Proof.
+  repeat split.
+  intros m Hm. unfold cx1_c'. rewrite get_definition_with_definition, (str_eqb_neq _ _ Hm). reflexivity.
+Qed.
+Example cx1_left : eval no_opaque 5%nat (EMacro s_m) cx1_c' = Val (Some one).
+Proof. vm_compute. reflexivity. Qed.
+Example cx1_right : eval no_opaque 5%nat (subst_macro s_n (EConst one) (EMacro s_m)) cx1_c = Val None.
+Proof. vm_compute. reflexivity. Qed.
+
+(* (2) shadowing, empty context: (define "n" 1 (define "k" @n (define "n" 2 @k))) is 2 in the
+       model (k's body is expanded where n is 2); every textual substitution of 1 for @n that
+       reaches into k's body gives 1. *)
+Definition cx2_body : expr :=
+  ECall F_define [EConst (JStr s_k); EMacro s_n;
+    ECall F_define [EConst (JStr s_n); EConst two; EMacro s_k]].
+Example cx2_hyps :
+  macro_literal cx2_body = true /\ no_redefine s_n cx2_body = false /\
+  no_macro_ref s_n (EConst one) = true /\ macro_literal (EConst one) = true.
+Proof. vm_compute. repeat split. Qed.
+Example cx2_left :
+  eval no_opaque 5%nat (ECall F_define [EConst (JStr s_n); EConst one; cx2_body]) (new_with_no_context JNull)
+  = Val (Some two).
+Proof. vm_compute. reflexivity. Qed.
+Example cx2_right :
+  eval no_opaque 5%nat (subst_macro s_n (EConst one) cx2_body) (new_with_no_context JNull) = Val (Some one).
+Proof. vm_compute. reflexivity. Qed.
+
+(* the statement of S3 without the extra hypotheses is refuted by (1) *)
+Theorem C12_macro_subst_unrestricted_false :
+  ~ (forall mf n d e c c' r,
+       macro_literal e = true -> no_macro_ref n d = true -> macro_literal d = true ->
+       ctx_agree_except_def n d c c' ->
+       eval no_opaque mf e c' = Val r -> eval no_opaque mf (subst_macro n d e) c = Val r).
+Proof.
+  intros H. destruct cx1_hyps as (H1 & _ & H3 & H4 & H5).
+  pose proof (H 5%nat s_n (EConst one) (EMacro s_m) cx1_c cx1_c' (Some one) H1 H3 H4 H5 cx1_left) as E.
+  rewrite cx1_right in E. discriminate E.
+Qed.
+
+(* ... and, in the empty context, by (2) *)
+Theorem C12_define_subst_shadow_false :
+  ~ (forall mf n d body r,
+       macro_literal body = true -> no_macro_ref n d = true -> macro_literal d = true ->
+       eval no_opaque mf (ECall F_define [EConst (JStr n); d; body]) (new_with_no_context JNull) = Val r ->
+       eval no_opaque mf (subst_macro n d body) (new_with_no_context JNull) = Val r).
+Proof.
+  intros H. destruct cx2_hyps as (H1 & _ & H3 & H4).
+  pose proof (H 5%nat s_n (EConst one) cx2_body (Some two) H1 H3 H4 cx2_left) as E.
+  rewrite cx2_right in E. discriminate E.
+Qed.
+End Examples.
+
+(* ================================================================== *)
+(* Axiom audit                                                         *)
+(* ================================================================== *)
+Print Assumptions eval_ECall.
+Print Assumptions fuel_mono.
+Print Assumptions eval_ext.
+Print Assumptions C12_set_unfold.
+Print Assumptions C12_define_unfold.
+Print Assumptions C12_pipe2.
+Print Assumptions C12_var_subst.
+Print Assumptions C12_set_is_subst.
+Print Assumptions C12_set_is_subst_val.
+Print Assumptions C12_macro_subst_gen.
+Print Assumptions C12_macro_subst.
+Print Assumptions C12_define_is_subst.
+Print Assumptions C12_define_is_subst_top.
+Print Assumptions C12_macro_subst_conv.
+Print Assumptions C12_macro_subst_iff.
+Print Assumptions C12_set_shadow.
+Print Assumptions C12_define_shadow.
+Print Assumptions extract_with_variable.
+Print Assumptions extract_with_definition.
+Print Assumptions extract_with_result.
+Print Assumptions parent_input_with_results.
+Print Assumptions Examples.ex_map_set.
+Print Assumptions Examples.C12_macro_subst_unrestricted_false.
+Print Assumptions Examples.C12_define_subst_shadow_false.
